@@ -51,11 +51,17 @@ def validComponent (c : String) : Bool := !(c == "..") && !hasNul c
 /-- `validateTarPath`: not empty, not absolute, no `""`, `.`, `..` element -/
 def validTarPath (name : List String) : Bool := name.all simple
 
+/-- the seconds `updateMtime` hands to `utimensat`: `syscall.NsecToTimespec(mtime.UnixNano())` — `UnixNano`
+is computed in wrapping int64 arithmetic (years before 1678 / after 2262 overflow), `NsecToTimespec` takes
+the floor -/
+def tsSec (t : Int) : Int :=
+  ((t * 1000000000 + 9223372036854775808) % 18446744073709551616 - 9223372036854775808) / 1000000000
+
 /-- `files.UpdateMetaUnix(path, uint32(mode), mtime)`: `utimensat(AT_SYMLINK_NOFOLLOW)` first, then
 `os.Chmod` (FOLLOWS links) unless the converted mode is 0.  `UnixPermsToModePerms` followed by
 `syscallMode` keeps exactly the 12 permission bits. -/
 def updateMeta (w : World) (p : Path) (mode : Nat) (mtime : Int) : Res :=
-  let r := utimensNoFollow w p mtime
+  let r := utimensNoFollow w p (tsSec mtime)
   match r.2 with
   | some e => (r.1, some e)
   | none =>
@@ -122,7 +128,7 @@ def extractSymlink (w : World) (p : Path) (e : Entry) : Res :=
     let r2 := symlink r.1 e.linkname p
     match r2.2 with
     | some err => (r2.1, some err)
-    | none => utimensNoFollow r2.1 p e.mtime
+    | none => utimensNoFollow r2.1 p (tsSec e.mtime)
 
 /-- `extractFile`: remove, temp file in the parent, copy, rename -/
 def extractFile (tmp : String) (w : World) (p : Path) (e : Entry) : Res :=
